@@ -63,7 +63,9 @@ def open_kind(kind: str, rng, ctx, overflow: bool = False) -> Opened:
         backing = None
         bname = None
         if kind == "qcow2-snap":
-            k2 = {g: rng.choice("NNZC") for g in range(ncl) if rng.random() < dens}
+            # the snapshot may have been taken when the disk was smaller: it then maps only the front part
+            lim = rng.choice([ncl, ncl, max(1, ncl // 2), max(1, ncl // 4)])
+            k2 = {g: rng.choice("NNZC") for g in range(lim) if rng.random() < dens}
             views.append(wq.make_view(rng, size=size, cluster_bits=cb, kinds=k2, extl2=ext, tag=tag ^ 0x55AA))
         if kind == "qcow2-backing":
             import hashlib
@@ -77,7 +79,8 @@ def open_kind(kind: str, rng, ctx, overflow: bool = False) -> Opened:
         # header lengths of old (104, no compression-type byte) and current (112) writers, with header extensions following
         exts = [wq.extension(0x6803F857, bytes(rng.randrange(1, 256) for _ in range(48 * rng.randrange(1, 4))))] if rng.random() < 0.6 else None
         img, _, meta = wq.build(rng, cluster_bits=cb, size=size, views=views, version=3, extl2=ext, placement="shuffle",
-                                backing_name=bname, tuned_frac=0.1, header_length=rng.choice([104, 112, 112]), extensions=exts)
+                                backing_name=bname, tuned_frac=0.1, header_length=rng.choice([104, 112, 112]), extensions=exts,
+                                snap_short_l1=rng.random() < 0.6)
         fh = _h(img)
         q = QCow2(fh, backing_file=backing)
         if kind == "qcow2-snap":
